@@ -180,7 +180,7 @@ def run(ctx: Ctx):
                     insts.extend(instances(rng, nodes, list(imps)))
     run_instances(ctx, s, insts)
     s.finish()
-    n = 4000 if quick else 60000
+    n = ctx.size(4000, 60000)
     for name, comps in (("laws-random-plain", gen.PLAIN), ("laws-random-adversarial", gen.IDENT_ADVERSARIAL)):
         s = Stream(ctx, name)
         rng = ctx.rng(name)
